@@ -36,6 +36,9 @@ type op struct {
 	A     int64  `json:"a"`
 	B     int64  `json:"b"`
 	Data  []int  `json:"data"`
+	// deletec: writer ops that run inside the start / end offset resolver of Delete
+	SOps []op `json:"sops,omitempty"`
+	EOps []op `json:"eops,omitempty"`
 }
 
 type tcase struct {
@@ -56,6 +59,10 @@ type step struct {
 	Iter   [][]any   `json:"iter"`   // [start, end, size, [bytes]]
 	Ptrs   [][]int64 `json:"ptrs"`   // [start, end, fileKey, offset, size]
 	Files  [][]int64 `json:"files"`  // [key, size]
+	// deletec: the nested writer ops that ran, in order, each with its own observation
+	Nested []step `json:"nested,omitempty"`
+	Phase  string `json:"phase,omitempty"` // nested step: "s" or "e"
+	Idx    int    `json:"idx"`             // nested step: position in sops / eops
 }
 
 type result struct {
@@ -172,6 +179,51 @@ func observe(ctx context.Context, db *domain.DB, fs xfs.FS, st *step) error {
 	return nil
 }
 
+// writerOp performs one scripted writer operation; bad = the script addresses a writer
+// id that does not exist / already exists (no call is made).
+func writerOp(ctx context.Context, db *domain.DB, writers map[int]*domain.Writer, o op) (err error, bad bool) {
+	switch o.Op {
+	case "open":
+		if _, exists := writers[o.W]; exists {
+			return nil, true
+		}
+		var w *domain.Writer
+		w, err = db.OpenWriter(ctx, domain.WriterConfig{
+			Start:                    telem.TimeStamp(o.Start),
+			End:                      telem.TimeStamp(o.End),
+			AutoIndexPersistInterval: domain.AlwaysIndexPersistOnAutoCommit,
+		})
+		if err == nil {
+			writers[o.W] = w
+		}
+		return err, false
+	case "write":
+		w, ok := writers[o.W]
+		if !ok {
+			return nil, true
+		}
+		bs := make([]byte, len(o.Data))
+		for i, b := range o.Data {
+			bs[i] = byte(b)
+		}
+		_, err = w.Write(bs)
+		return err, false
+	case "commit":
+		w, ok := writers[o.W]
+		if !ok {
+			return nil, true
+		}
+		return w.Commit(ctx, telem.TimeStamp(o.End)), false
+	case "close":
+		w, ok := writers[o.W]
+		if !ok {
+			return nil, true
+		}
+		return w.Close(), false
+	}
+	return nil, true
+}
+
 func runCase(c tcase) (res result) {
 	if c.Telem != nil {
 		return runTelem(c)
@@ -204,45 +256,66 @@ func runCase(c tcase) (res result) {
 			}()
 			var err error
 			switch o.Op {
-			case "open":
-				if _, exists := writers[o.W]; exists {
+			case "open", "write", "commit", "close":
+				var bad bool
+				err, bad = writerOp(ctx, db, writers, o)
+				if bad {
 					st.Cls = "badop"
 					return
 				}
-				var w *domain.Writer
-				w, err = db.OpenWriter(ctx, domain.WriterConfig{
-					Start:                    telem.TimeStamp(o.Start),
-					End:                      telem.TimeStamp(o.End),
-					AutoIndexPersistInterval: domain.AlwaysIndexPersistOnAutoCommit,
-				})
-				if err == nil {
-					writers[o.W] = w
+			case "deletec":
+				nestedPanic := false
+				mk := func(phase string, ops []op) domain.OffsetResolver {
+					ran := false
+					return func(c context.Context, ds, ts telem.TimeStamp) (telem.Size, telem.TimeStamp, error) {
+						if !ran {
+							ran = true
+							for i, no := range ops {
+								var ns step
+								ns.Phase, ns.Idx = phase, i
+								func() {
+									defer func() {
+										if r := recover(); r != nil {
+											ns.Cls = "panic"
+											ns.Err = fmt.Sprint(r)
+											nestedPanic = true
+										}
+									}()
+									nerr, bad := writerOp(c, db, writers, no)
+									if bad {
+										ns.Cls = "badop"
+										return
+									}
+									ns.Cls = classify(nerr)
+									if nerr != nil {
+										ns.Err = nerr.Error()
+									}
+								}()
+								if nestedPanic {
+									st.Nested = append(st.Nested, ns)
+									return 0, 0, errors.New("nested panic")
+								}
+								if w, ok := writers[no.W]; ok {
+									ns.Key = int(w.VerifC03FileKey())
+									ns.WStart = int64(w.Start)
+									ns.WEnd = int64(w.End)
+								}
+								if oerr := observe(c, db, fs, &ns); oerr != nil {
+									ns.Err = "observe: " + oerr.Error()
+								}
+								st.Nested = append(st.Nested, ns)
+							}
+						}
+						return linResolver(c, ds, ts)
+					}
 				}
-			case "write":
-				w, ok := writers[o.W]
-				if !ok {
-					st.Cls = "badop"
+				err = db.Delete(ctx, telem.TimeRange{Start: telem.TimeStamp(o.A), End: telem.TimeStamp(o.B)},
+					mk("s", o.SOps), mk("e", o.EOps))
+				if nestedPanic {
+					st.Cls = "panic"
+					poisoned = true
 					return
 				}
-				bs := make([]byte, len(o.Data))
-				for i, b := range o.Data {
-					bs[i] = byte(b)
-				}
-				_, err = w.Write(bs)
-			case "commit":
-				w, ok := writers[o.W]
-				if !ok {
-					st.Cls = "badop"
-					return
-				}
-				err = w.Commit(ctx, telem.TimeStamp(o.End))
-			case "close":
-				w, ok := writers[o.W]
-				if !ok {
-					st.Cls = "badop"
-					return
-				}
-				err = w.Close()
 			case "delete":
 				err = db.Delete(ctx, telem.TimeRange{Start: telem.TimeStamp(o.A), End: telem.TimeStamp(o.B)},
 					linResolver, linResolver)
@@ -260,7 +333,7 @@ func runCase(c tcase) (res result) {
 			res.Steps = append(res.Steps, st)
 			return res
 		}
-		if w, ok := writers[o.W]; ok && o.Op != "delete" {
+		if w, ok := writers[o.W]; ok && o.Op != "delete" && o.Op != "deletec" {
 			st.Key = int(w.VerifC03FileKey())
 			st.WStart = int64(w.Start)
 			st.WEnd = int64(w.End)
